@@ -510,7 +510,9 @@ func redirMarshalerEncoder(e *encodeState, v reflect.Value, opts encOpts) {
 		return
 	}
 
-	e.marshal(iv, opts)
+	if err := e.marshal(iv, opts); err != nil {
+		e.error(err)
+	}
 }
 
 func marshalerTrustEncoder(e *encodeState, v reflect.Value, opts encOpts) {
